@@ -283,11 +283,16 @@ func runC20(sc *Scenario, keepLog bool) (rep *RunReport) {
 				if err1 != nil || err2 != nil {
 					panic(inputError{fmt.Errorf("c20 validation pair %q", st.Msgs[0])})
 				}
-				opts := []validate.Option{}
-				if i%2 == 1 {
-					opts = append(opts, validate.WithRecycleValidators(true))
+				var vr *validate.Result
+				switch i % 3 {
+				case 0:
+					vr = validate.NewSchemaValidator(sch, nil, "", strfmt.Default).Validate(data)
+				case 1:
+					vr = validate.NewSchemaValidator(sch, nil, "", strfmt.Default, validate.WithRecycleValidators(true)).Validate(data)
+				default:
+					// as AgainstSchema does internally: the result itself is pooled (released by the merge it is an operand of)
+					vr = validate.VerifPooledValidation(sch, data, strfmt.Default)
 				}
-				vr := validate.NewSchemaValidator(sch, nil, "", strfmt.Default, opts...).Validate(data)
 				res[st.I] = vr
 				// the model starts from what the validation reported (its correctness is not C20's business)
 				m := rModel{live: true, pooled: validate.VerifWantsRedeem(vr), match: vr.MatchCount}
